@@ -143,7 +143,11 @@ def row(item):
             return ("exc", "%s@%s" % (type(e).__name__, where), str(e)[:200])
 
     first_scripts = {}
-    for res, p, script in explore(leaf, max_leaves=max_leaves):
+    try:
+        it = list(explore(leaf, max_leaves=max_leaves))
+    except ExploreBudget:
+        return {"budget": True, "si": si}
+    for res, p, script in it:
         leaves += 1
         if res[0] == "ok":
             j = cx["index"].get(res[1])
@@ -231,7 +235,7 @@ def expand_row(cx, rep_row, sigma, j):
     return {"row": out, "leaves": 0, "outside": dict(rep_row["outside"]), "exc": dict(rep_row["exc"]), "scripts": {}, "si": j}
 
 
-def run_config(c, max_leaves_per_state=3000000, deadline=None):
+def run_config(c, max_leaves_per_state=600000, deadline=None):
     cx = context(c)
     n_states = len(cx["trees"])
     if c.get("symmetric") and c["style"] == "flat":
@@ -243,7 +247,7 @@ def run_config(c, max_leaves_per_state=3000000, deadline=None):
         spot = rr.sample(others, min(3, len(others)))
         items = [(c, si, max_leaves_per_state) for si in reps + spot]
         got = runner.pmap(row, items, timeout=3000, deadline=deadline)
-        if any(r is None for r in got):
+        if any(r is None or r.get("budget") for r in got):
             return None, []
         by = {r["si"]: r for r in got}
         rows = []
@@ -259,8 +263,8 @@ def run_config(c, max_leaves_per_state=3000000, deadline=None):
         return st, probs
     items = [(c, si, max_leaves_per_state) for si in range(n_states)]
     rows = runner.pmap(row, items, timeout=3000, deadline=deadline)
-    if any(r is None for r in rows):
-        return None, []
+    if any(r is None or r.get("budget") for r in rows):
+        return None, []  # outcome tree larger than the per-state leaf budget: configuration not judged
     return analyse(c, rows)
 
 
